@@ -103,7 +103,7 @@ Eval(e, env, S) ==
         THEN [v |-> NoneV, s |-> [S EXCEPT !.err = "NameError"]]
         ELSE
           LET lg == Append(S.log, <<x.kind, x.k, vals>>)
-              S1 == [S EXCEPT !.rd = @ \cup Range(cs), !.log = lg] IN
+              S1 == [S EXCEPT !.rd = @ \cup Range(cs), !.log = lg, !.ops = Append(@, <<"call", Len(S.log)>>)] IN
           IF x.kind = "T" THEN [v |-> <<"t", x.k, Len(lg)>>, s |-> S1]
           ELSE IF S.di > Len(S.ch) THEN [v |-> NoneV, s |-> [S1 EXCEPT !.err = "ood"]]
           ELSE LET c == S.ch[S.di] IN
@@ -118,20 +118,26 @@ Eval(e, env, S) ==
     [] x.kind = "const" -> [v |-> IntV(x.k), s |-> S]
     [] x.kind = "none"  -> [v |-> NoneV, s |-> S]
     [] x.kind = "bool"  -> [v |-> BoolV(x.k = 1), s |-> S]
+    \* `ops` lists the overloadable operators this expression goes through, in invocation order, each with the
+    \* length of the effect log at the moment of invocation (C04): not_ is invoked after its operand, and_/or_
+    \* before their (lazy) operands, if_exp after the condition and before the chosen branch.
     [] x.kind = "not" ->
-        LET r == Eval(x.args[1], env, S) IN [v |-> BoolV(~Truthy(r.v)), s |-> r.s]
-    [] x.kind = "and" ->
         LET r == Eval(x.args[1], env, S) IN
+        IF r.s.err # "" THEN r
+        ELSE [v |-> BoolV(~Truthy(r.v)), s |-> [r.s EXCEPT !.ops = Append(@, <<"not_", Len(r.s.log)>>)]]
+    [] x.kind = "and" ->
+        LET r == Eval(x.args[1], env, [S EXCEPT !.ops = Append(@, <<"and_", Len(S.log)>>)]) IN
         IF r.s.err # "" \/ ~Truthy(r.v) THEN r ELSE Eval(x.args[2], env, r.s)
     [] x.kind = "or" ->
-        LET r == Eval(x.args[1], env, S) IN
+        LET r == Eval(x.args[1], env, [S EXCEPT !.ops = Append(@, <<"or_", Len(S.log)>>)]) IN
         IF r.s.err # "" \/ Truthy(r.v) THEN r ELSE Eval(x.args[2], env, r.s)
     [] x.kind = "ifexp" ->      \* args = <<test, then, else>>
         LET r == Eval(x.args[1], env, S) IN
         IF r.s.err # "" THEN r
-        ELSE IF Truthy(r.v) THEN Eval(x.args[2], env, r.s) ELSE Eval(x.args[3], env, r.s)
+        ELSE LET s1 == [r.s EXCEPT !.ops = Append(@, <<"if_exp", Len(r.s.log)>>)] IN
+             IF Truthy(r.v) THEN Eval(x.args[2], env, s1) ELSE Eval(x.args[3], env, s1)
 
-S0(ch) == [log |-> log, di |-> 1, ch |-> ch, err |-> "", used |-> <<>>, rd |-> {}]
+S0(ch) == [log |-> log, di |-> 1, ch |-> ch, err |-> "", used |-> <<>>, rd |-> {}, ops |-> <<>>]
 \* the choices offered to node n: nch decision slots
 Choices(n) == [1..ND(n).nch -> 0..MaxTrip]
 \* a choice vector is canonical iff it was consumed legally and its unused tail is 0
